@@ -69,6 +69,20 @@ func msgTerm(m *message.Message) hx.T {
 	return hx.C("mkMsg", int64(m.Type), uint64(m.ID), ints([]byte(m.Route)), ints(m.Data), m.Err)
 }
 
+// The server keeps ONE packet decoder / encoder / message encoder for all its sessions
+// (pomelonet/server/session.NewSessionConfig), so the harness does too: a value returned by one
+// call must stay what it was when later calls are made on the same objects.
+var (
+	pktDec  = codec.NewPomeloPacketDecoder()
+	pktEnc  = codec.NewPomeloPacketEncoder()
+	msgEncs = map[bool]message.Encoder{false: message.NewMessagesEncoder(false), true: message.NewMessagesEncoder(true)}
+)
+
+// late is a result that is rendered only after ALL ops of the case have run: the property says
+// decoding "returns the same packets and the same message", and a returned value that a later
+// call overwrites (a reused scratch buffer) is not the same any more.
+type late func() any
+
 func guard(f func() any) (out any) {
 	defer func() {
 		if r := recover(); r != nil {
@@ -87,13 +101,13 @@ func ExecOp(o hx.T) any {
 		}
 		mt := o.Term(3)
 		m := &message.Message{Type: message.Type(mt.Int(0)), ID: uint(hx.U64(mt.Args[1])), Route: string(exact(mt.Ints(2))), Data: exact(mt.Ints(3)), Err: mt.Bool(4)}
-		enc := message.NewMessagesEncoder(o.Bool(1))
+		enc := msgEncs[o.Bool(1)]
 		return guard(func() any {
 			b, err := enc.Encode(m)
 			if err != nil {
 				return errTerm(err)
 			}
-			return hx.C("RBytes", ints(b))
+			return late(func() any { return hx.C("RBytes", ints(b)) })
 		})
 	case "ODecMsg":
 		if err := setDict(o.List(0)); err != nil {
@@ -105,19 +119,19 @@ func ExecOp(o hx.T) any {
 			if err != nil {
 				return errTerm(err)
 			}
-			return hx.C("RMsg", msgTerm(m))
+			return late(func() any { return hx.C("RMsg", msgTerm(m)) })
 		})
 	case "OEncPkt":
 		return guard(func() any {
-			b, err := codec.NewPomeloPacketEncoder().Encode(packet.Type(o.Int(0)), exact(o.Ints(1)))
+			b, err := pktEnc.Encode(packet.Type(o.Int(0)), exact(o.Ints(1)))
 			if err != nil {
 				return errTerm(err)
 			}
-			return hx.C("RBytes", ints(b))
+			return late(func() any { return hx.C("RBytes", ints(b)) })
 		})
 	case "OPktHeader":
 		return guard(func() any {
-			b, err := codec.NewPomeloPacketEncoder().Encode(packet.Type(o.Int(0)), make([]byte, o.Int(1)))
+			b, err := pktEnc.Encode(packet.Type(o.Int(0)), make([]byte, o.Int(1)))
 			if err != nil {
 				return errTerm(err)
 			}
@@ -128,18 +142,20 @@ func ExecOp(o hx.T) any {
 		})
 	case "ODecPkts":
 		return guard(func() any {
-			ps, err := codec.NewPomeloPacketDecoder().Decode(exact(o.Ints(0)))
+			ps, err := pktDec.Decode(exact(o.Ints(0)))
 			if err != nil {
 				return errTerm(err)
 			}
-			l := []any{}
-			for _, p := range ps {
-				if p.Length != len(p.Data) {
-					return "RPanic" // Length field must describe Data
+			return late(func() any {
+				l := []any{}
+				for _, p := range ps {
+					if p.Length != len(p.Data) {
+						return "RPanic" // Length field must describe Data
+					}
+					l = append(l, hx.Pair{A: int64(p.Type), B: hx.Norm(ints(p.Data))})
 				}
-				l = append(l, hx.Pair{A: int64(p.Type), B: hx.Norm(ints(p.Data))})
-			}
-			return hx.C("RPkts", l)
+				return hx.C("RPkts", l)
+			})
 		})
 	case "OParseHeader":
 		return guard(func() any {
@@ -173,6 +189,8 @@ func ExecOp(o hx.T) any {
 		return framed(o.List(0))
 	case "OWsFramed":
 		return wsFramed(o.List(0))
+	case "OBigFrame":
+		return bigFrame(o.Bool(0), o.Int(1), o.Int(2))
 	case "OSweep":
 		return hx.C("RSweep", sweep(int(o.Int(0))))
 	}
@@ -188,6 +206,21 @@ var (
 // chunks one by one (with a pause, so that each chunk is its own segment / Read), then
 // closes; the server side calls GetNextMessage until it fails.
 func framed(chunks []any) any {
+	bs := [][]byte{}
+	for _, ch := range chunks {
+		bs = append(bs, exact(hx.Ints(ch)))
+	}
+	return guard(func() any {
+		ms, end := framedRaw(bs, 3*time.Millisecond)
+		l := []any{}
+		for _, m := range ms {
+			l = append(l, hx.Norm(ints(m)))
+		}
+		return hx.C("RFrames", l, end)
+	})
+}
+
+func framedRaw(chunks [][]byte, pause time.Duration) ([][]byte, any) {
 	accOnce.Do(func() {
 		acc = acceptor.NewTCPAcceptor("127.0.0.1:0")
 		go acc.ListenAndServe()
@@ -204,41 +237,62 @@ func framed(chunks []any) any {
 	}
 	pc := <-acc.GetConnChan()
 	go func() {
-		for _, ch := range chunks {
-			b := exact(hx.Ints(ch))
+		for _, b := range chunks {
 			if len(b) > 0 {
 				c.Write(b)
-				time.Sleep(3 * time.Millisecond)
+				time.Sleep(pause)
 			}
 		}
 		c.Close()
 	}()
-	return guard(func() any {
-		ms := []any{}
-		for {
-			pc.SetReadDeadline(time.Now().Add(3 * time.Second))
-			b, err := pc.GetNextMessage()
-			if err != nil {
-				pc.Close()
-				var end any
-				switch {
-				case errors.Is(err, constants.ErrConnectionClosed):
-					end = "FClosed"
-				case errors.Is(err, constants.ErrReceivedMsgSmallerThanExpected):
-					end = "FShortBody"
-				case errors.Is(err, packet.ErrInvalidPomeloHeader):
-					end = hx.C("FBad", "EPktHeader")
-				case errors.Is(err, packet.ErrWrongPomeloPacketType):
-					end = hx.C("FBad", "EPktType")
-				case errors.Is(err, codec.ErrPacketSizeExcced):
-					end = hx.C("FBad", "EPktSize")
-				default:
-					end = "FFuel" // timeout or an error the model does not know
-				}
-				return hx.C("RFrames", ms, end)
+	ms := [][]byte{}
+	for {
+		pc.SetReadDeadline(time.Now().Add(5 * time.Second))
+		b, err := pc.GetNextMessage()
+		if err != nil {
+			pc.Close()
+			var end any
+			switch {
+			case errors.Is(err, constants.ErrConnectionClosed):
+				end = "FClosed"
+			case errors.Is(err, constants.ErrReceivedMsgSmallerThanExpected):
+				end = "FShortBody"
+			case errors.Is(err, packet.ErrInvalidPomeloHeader):
+				end = hx.C("FBad", "EPktHeader")
+			case errors.Is(err, packet.ErrWrongPomeloPacketType):
+				end = hx.C("FBad", "EPktType")
+			case errors.Is(err, codec.ErrPacketSizeExcced):
+				end = hx.C("FBad", "EPktSize")
+			default:
+				end = "FFuel" // timeout or an error the model does not know
 			}
-			ms = append(ms, hx.Norm(ints(b)))
+			return ms, end
 		}
+		ms = append(ms, b)
+	}
+}
+
+// bigFrame: one packet of type t with a body of n bytes (a fixed pattern), encoded by the real
+// encoder, sent over a live websocket (ws) or TCP connection to the real acceptor and read with
+// GetNextMessage.  Only a summary is compared (handed up intact: yes/no), so that bodies up to
+// the 16 MiB limit can be driven without printing them.
+func bigFrame(ws bool, t, n int64) any {
+	return guard(func() any {
+		body := make([]byte, n)
+		for i := range body {
+			body[i] = byte(i*7 + 3)
+		}
+		b, err := pktEnc.Encode(packet.Type(t), body)
+		if err != nil {
+			return errTerm(err)
+		}
+		var got [][]byte
+		if ws {
+			got, _ = wsFramedRaw([][]byte{b})
+		} else {
+			got, _ = framedRaw([][]byte{b}, 0)
+		}
+		return hx.C("RBig", len(got) == 1 && string(got[0]) == string(b))
 	})
 }
 
@@ -252,6 +306,21 @@ var (
 // continuation frames; every third one as a text message), then closes; the server side
 // calls WSConn.GetNextMessage until it fails.
 func wsFramed(msgs []any) any {
+	bs := [][]byte{}
+	for _, m := range msgs {
+		bs = append(bs, exact(hx.Ints(m)))
+	}
+	return guard(func() any {
+		ms, end := wsFramedRaw(bs)
+		l := []any{}
+		for _, m := range ms {
+			l = append(l, hx.Norm(ints(m)))
+		}
+		return hx.C("RWs", l, end)
+	})
+}
+
+func wsFramedRaw(msgs [][]byte) ([][]byte, any) {
 	wsOnce.Do(func() {
 		wsAcc = acceptor.NewWSAcceptor("127.0.0.1:0")
 		go wsAcc.ListenAndServe()
@@ -259,7 +328,11 @@ func wsFramed(msgs []any) any {
 			time.Sleep(time.Millisecond)
 		}
 	})
-	d := websocket.Dialer{WriteBufferSize: 64, HandshakeTimeout: 3 * time.Second}
+	wb := 64
+	if len(msgs) == 1 && len(msgs[0]) > 1<<20 {
+		wb = 1 << 16
+	}
+	d := websocket.Dialer{WriteBufferSize: wb, HandshakeTimeout: 3 * time.Second}
 	c, _, err := d.Dial("ws://"+wsAcc.GetAddr()+"/", nil)
 	if err != nil {
 		panic("c06: ws dial: " + err.Error())
@@ -271,42 +344,40 @@ func wsFramed(msgs []any) any {
 			if i%3 == 2 {
 				typ = websocket.TextMessage
 			}
-			c.WriteMessage(typ, exact(hx.Ints(m)))
+			c.WriteMessage(typ, m)
 		}
 		c.WriteControl(websocket.CloseMessage, websocket.FormatCloseMessage(websocket.CloseNormalClosure, ""), time.Now().Add(time.Second))
 		time.Sleep(2 * time.Millisecond)
 		c.Close()
 	}()
-	return guard(func() any {
-		ms := []any{}
-		for {
-			pc.SetReadDeadline(time.Now().Add(3 * time.Second))
-			b, err := pc.GetNextMessage()
-			if err != nil {
-				pc.Close()
-				var ne net.Error
-				var end any
-				switch {
-				case errors.Is(err, constants.ErrReceivedMsgSmallerThanExpected):
-					end = hx.C("Some", "WShort")
-				case errors.Is(err, constants.ErrReceivedMsgBiggerThanExpected):
-					end = hx.C("Some", "WBig")
-				case errors.Is(err, packet.ErrInvalidPomeloHeader):
-					end = hx.C("Some", hx.C("WBad", "EPktHeader"))
-				case errors.Is(err, packet.ErrWrongPomeloPacketType):
-					end = hx.C("Some", hx.C("WBad", "EPktType"))
-				case errors.Is(err, codec.ErrPacketSizeExcced):
-					end = hx.C("Some", hx.C("WBad", "EPktSize"))
-				case errors.As(err, &ne) && ne.Timeout():
-					end = hx.C("Some", hx.C("WBad", "EFuel")) // nothing arrived: not a behaviour of the model
-				default:
-					end = "None" // the peer's close frame / end of stream
-				}
-				return hx.C("RWs", ms, end)
+	ms := [][]byte{}
+	for {
+		pc.SetReadDeadline(time.Now().Add(5 * time.Second))
+		b, err := pc.GetNextMessage()
+		if err != nil {
+			pc.Close()
+			var ne net.Error
+			var end any
+			switch {
+			case errors.Is(err, constants.ErrReceivedMsgSmallerThanExpected):
+				end = hx.C("Some", "WShort")
+			case errors.Is(err, constants.ErrReceivedMsgBiggerThanExpected):
+				end = hx.C("Some", "WBig")
+			case errors.Is(err, packet.ErrInvalidPomeloHeader):
+				end = hx.C("Some", hx.C("WBad", "EPktHeader"))
+			case errors.Is(err, packet.ErrWrongPomeloPacketType):
+				end = hx.C("Some", hx.C("WBad", "EPktType"))
+			case errors.Is(err, codec.ErrPacketSizeExcced):
+				end = hx.C("Some", hx.C("WBad", "EPktSize"))
+			case errors.As(err, &ne) && ne.Timeout():
+				end = hx.C("Some", hx.C("WBad", "EFuel")) // nothing arrived: not a behaviour of the model
+			default:
+				end = "None" // the peer's close frame / end of stream
 			}
-			ms = append(ms, hx.Norm(ints(b)))
+			return ms, end
 		}
-	})
+		ms = append(ms, b)
+	}
 }
 
 // sweep feeds every byte string of length <= k to the three decoders and counts panics.
@@ -481,7 +552,11 @@ func encMsgOp(cfg *hx.Config, tags map[string]bool) (hx.T, []byte) {
 	op := hx.C("OEncMsg", es, compress, ints(defl), m)
 	// also produce the bytes for the decode stream
 	var enc []byte
-	if out, ok := ExecOp(op).(hx.T); ok && out.Name == "RBytes" {
+	res := ExecOp(op)
+	if l, ok := res.(late); ok {
+		res = l()
+	}
+	if out, ok := res.(hx.T); ok && out.Name == "RBytes" {
 		enc = exact(out.Ints(0))
 	}
 	return op, enc
@@ -562,6 +637,11 @@ func emit(cfg *hx.Config, kind string, ops []hx.T, tags map[string]bool) {
 	nt := false
 	for i, o := range ops {
 		obs[i] = ExecOp(o)
+	}
+	for i := range obs {
+		if l, ok := obs[i].(late); ok {
+			obs[i] = guard(l)
+		}
 		if t, ok := obs[i].(hx.T); ok && (t.Name == "RMsg" || t.Name == "RBytes" || t.Name == "RPkts" || t.Name == "RHdr" || t.Name == "RDict" || t.Name == "RFrames") {
 			nt = true
 		}
@@ -657,6 +737,38 @@ func Run(cfg *hx.Config) error {
 			cl = append(cl, hx.Norm(ints(ch)))
 		}
 		emit(cfg, "framed", []hx.T{hx.C("OFramed", cl)}, tags)
+	}
+	// packets up to the 16 MiB limit over both transports (summary comparison)
+	bigs := []int64{0, 65535, 65536, 1<<24 - 2, 1<<24 - 1}
+	if cfg.Tier == "thorough" {
+		bigs = []int64{0, 1, 4095, 4096, 65535, 65536, 1 << 20, 1<<24 - 5, 1<<24 - 4, 1<<24 - 3, 1<<24 - 2, 1<<24 - 1, 1 << 24}
+	}
+	for _, n := range bigs {
+		emit(cfg, "big-frame", []hx.T{hx.C("OBigFrame", true, int64(4), n), hx.C("OBigFrame", false, int64(4), n)}, map[string]bool{"big-frame": true})
+	}
+	// results of earlier calls must survive later calls on the same decoder / encoder objects
+	nre := 20
+	if cfg.Tier == "thorough" {
+		nre = 200
+	}
+	for i := 0; i < nre; i++ {
+		tags := map[string]bool{"held-results": true}
+		var ops []hx.T
+		for n := 2 + r.Intn(3); n > 0; n-- {
+			switch r.Intn(3) {
+			case 0:
+				ops = append(ops, hx.C("ODecPkts", ints(pktStream(cfg, map[string]bool{}))))
+			case 1:
+				op, enc := encMsgOp(cfg, tags)
+				ops = append(ops, op)
+				if enc != nil {
+					ops = append(ops, decMsgOp(op.List(0), enc))
+				}
+			default:
+				ops = append(ops, hx.C("OEncPkt", int64(1+r.Intn(5)), ints(randBytes(cfg, r.Intn(24)))))
+			}
+		}
+		emit(cfg, "held-results", ops, tags)
 	}
 	// websocket framing: one packet per message; a message that is short, long, headerless or
 	// of a bad type ends the input
